@@ -1,7 +1,7 @@
 import Hertz.Model.Http1.Serve
 /-!
 Model of the client's response reader: `resp.parseFirstLine`, `resp.parseHeaders`, `resp.ReadHeader`
-(retry loop), `resp.ReadHeaders` (one `100 Continue` skipped), `resp.ReadRespBody`,
+(retry loop), `resp.ReadHeaders` (interim responses skipped), `resp.ReadRespBody`,
 `ext.ReadBody` incl. `readBodyIdentity`.
 -/
 namespace Hertz.H1.RespRead
@@ -135,11 +135,22 @@ def setContentLength (hd : RespHead) (n : Nat) : RespHead :=
   if mustSkipCL hd.status then hd else
   { hd with cl := n, clBytes := appendUintDec n, h := hd.h.filter (fun kv => kv.1 != strTransferEncoding) }
 
-/-- `resp.ReadHeaders`: one interim `100 Continue` is skipped -/
+/-- `resp.isInterim`: the registered interim status codes (`101` is final for the connection) -/
+def isInterim (status : Nat) : Bool := status == 100 || status == 102 || status == 103
+
+/-- the loop of `resp.ReadHeaders` (8ec4dd8): `for isInterim(StatusCode()) { ReadHeader again }`; every head takes at
+least one byte, so `fuel = length + 1` never runs out (`Proofs/PrefixStableResp.lean: readHeadersLoop_fuel`) -/
+def readHeadersLoop (disableNorm : Bool) (e : End) : Nat → Bytes → Except Err (RespHead × Bytes)
+  | 0, _ => .error .bad
+  | fuel + 1, s =>
+    match readHeader disableNorm e s with
+    | .error x => .error x
+    | .ok (hd0, s0) => if isInterim hd0.status then readHeadersLoop disableNorm e fuel s0 else .ok (hd0, s0)
+
+/-- `resp.ReadHeaders`: every interim response (`100 Continue`, `102 Processing`, `103 Early Hints`) in front of the
+final one is skipped; before 8ec4dd8 only ONE `100 Continue` was -/
 def readHeaders (disableNorm : Bool) (e : End) (s : Bytes) : Except Err (RespHead × Bytes) :=
-  match readHeader disableNorm e s with
-  | .error x => .error x
-  | .ok (hd0, s0) => if hd0.status = 100 then readHeader disableNorm e s0 else .ok (hd0, s0)
+  readHeadersLoop disableNorm e (s.length + 1) s
 
 /-- `resp.ReadRespBody` -/
 def readBodyPart (disableNorm : Bool) (maxBody : Nat) (e : End) (hd : RespHead) (s1 : Bytes) : Except Err Result :=
